@@ -124,17 +124,6 @@ FULL statement (false of the code): *the value stored has the sign of `wcscmp` /
 first `min dmax smax [count]` elements.*  The code subtracts, as `int`s with wrap-around, the two
 elements at which its loop stopped — also when it stopped because a bound ran out. -/
 
-theorem subS32_exact (a b : Nat) (h1 : -(2^31 : Int) ≤ toS32 a - toS32 b) (h2 : toS32 a - toS32 b < 2^31) :
-    subS32 a b = toS32 a - toS32 b := by
-  unfold subS32
-  simp only [Int.reducePow] at h1 h2 ⊢
-  generalize toS32 a - toS32 b = x at h1 h2
-  by_cases hx : 0 ≤ x
-  · have : x % 4294967296 = x := Int.emod_eq_of_lt hx (by omega)
-    simp only [this]; split <;> omega
-  · have : x % 4294967296 = x + 4294967296 := by omega
-    simp only [this]; split <;> omega
-
 /-- what `wcscmp_s` computes on ANY memory (`dmax` is tested against the NARROW limit
 `RSIZE_MAX_STR`, which is above `RSIZE_MAX_WSTR`: every valid `dmax` passes) -/
 theorem wcscmp_s_eq (dest dmax src smax : Nat) (st : St) (hall : AllRd st)
@@ -227,12 +216,13 @@ example : ∃ st : St, AllRd st ∧ stopIdx st.data 100 200 (min 4 4) < min 4 4 
   ⟨wMem fun a => if a = 100 then 97 else if a = 101 then 99 else if a = 200 then 97 else if a = 201 then 98 else 0,
    wMem_all _, by decide, by decide⟩
 
-/-! ## memcmp16_s / memcmp32_s -/
+example : ∃ st : St, AllRd st ∧ stopIdx st.data 100 200 (min 4 (min 4 3)) < min 4 (min 4 3) ∧
+    toS32 (st.data (100 + stopIdx st.data 100 200 (min 4 (min 4 3)))) -
+      toS32 (st.data (200 + stopIdx st.data 100 200 (min 4 (min 4 3)))) = -1 :=
+  ⟨wMem fun a => if a = 100 then 97 else if a = 101 then 98 else if a = 200 then 97 else if a = 201 then 99 else 0,
+   wMem_all _, by decide, by decide⟩
 
-theorem firstDiff_self (d : Nat → Nat) (p n : Nat) : firstDiff d p p n = none := by
-  induction n generalizing p with
-  | zero => rfl
-  | succ n ih => simp [firstDiff, ih (p+1)]
+/-! ## memcmp16_s / memcmp32_s -/
 
 /-- **memcmp16_s, partial** (`dlen * 2 ≤ RSIZE_MAX_MEM16`: the code compares the BYTE count with the
 element limit): compares the first `slen ≤ dlen` 16-bit elements; 0 if equal, otherwise the
@@ -257,6 +247,9 @@ theorem memcmp16_s_C10_partial (dest dlen src slen : Nat) (st : St) (hall : AllR
     simp [firstDiff_self]
   · simp only [hsame, if_false, exec_bind, memcmpLoopQ_eq hall _ _ _ _ _ hsle]
     rfl
+
+example : ∃ st : St, AllRd st ∧ firstDiff st.data 100 200 2 = some 1 ∧ (st.data 101 : Int) - (st.data 201 : Int) = -65535 :=
+  ⟨wMem fun a => if a = 100 then 7 else if a = 200 then 7 else if a = 201 then 65535 else 0, wMem_all _, by decide, by decide⟩
 
 /-- a VALID element count above half the limit is rejected with ESLEMAX (`dmax = dlen * 2` is
 compared with `RSIZE_MAX_MEM16`).  Known finding `memcmp16-bytes-vs-elements` (recorded under C05). -/
@@ -285,19 +278,6 @@ theorem memcmp32_s_eq (dest dlen src slen : Nat) (st : St) (hall : AllRd st)
     simp [firstDiff_self]
   · simp only [hsame, if_false, exec_bind, memcmpLoopQ_eq hall _ _ _ _ _ hsle]
     rfl
-
-theorem toInt32_diff (a b : Nat) (_ha : a < 2^32) (_hb : b < 2^32)
-    (h1 : -(2^31 : Int) ≤ (a : Int) - (b : Int)) (h2 : (a : Int) - (b : Int) < 2^31) :
-    toInt32 (a + 2^32 - b) = (a : Int) - (b : Int) := by
-  unfold toInt32
-  simp only [Nat.reducePow, Int.reducePow] at *
-  by_cases hab : b ≤ a
-  · have e : (a + 4294967296 - b) % 4294967296 = a - b := by omega
-    simp only [e, Int.ofNat_eq_natCast]
-    split <;> omega
-  · have e : (a + 4294967296 - b) % 4294967296 = a + 4294967296 - b := by omega
-    simp only [e, Int.ofNat_eq_natCast]
-    split <;> omega
 
 /-- **memcmp32_s, partial** (the first differing elements are less than `2^31` apart): 0 if the
 first `slen` 32-bit elements are equal, otherwise the difference of the first differing pair -/
